@@ -8,5 +8,7 @@ INVARIANT Valid
 INVARIANT FinalIsBatch
 INVARIANT CacheCoherent
 INVARIANT Col0Fixed
+INVARIANT IcLaws
+INVARIANT ExportIc
 INVARIANT ExportOK
 PROPERTY OnlyCurrentColumn
